@@ -134,18 +134,20 @@ func CleanupScratch() {
 
 // StoreWorld (W-store): one queue.Store driven sequentially against the model.
 type StoreWorld struct {
-	Cfg     QConfig
-	Clock   *Clock
-	Store   queue.Store
-	Model   *Model
-	Res     *Result
-	names   *namer
-	leases  []string // every lease id issued, in order
-	ids     []string // every message id ever stored, in order
-	dir     string
-	dbPath  string
-	closeFn func() error
-	inner   queue.Store // the unwrapped store (verif exports)
+	Cfg      QConfig
+	Clock    *Clock
+	Store    queue.Store
+	Model    *Model
+	Res      *Result
+	names    *namer
+	attempts []queue.DeliveryAttempt // reference list of recorded delivery attempts
+	attSeq   int
+	leases   []string // every lease id issued, in order
+	ids      []string // every message id ever stored, in order
+	dir      string
+	dbPath   string
+	closeFn  func() error
+	inner    queue.Store // the unwrapped store (verif exports)
 	// when set, every violation is kept; otherwise the world stops at the first
 	StopAtFirst    bool
 	step           int
@@ -750,6 +752,64 @@ func (w *StoreWorld) Exec(s Step) {
 		}
 		if len(resp.Items) != len(want) {
 			w.add([]Violation{viol("C14.listdead.count", "C14,C13", "ListDead returned %d items, contract says %d", len(resp.Items), len(want))})
+		}
+	case "attempt":
+		// a delivery attempt record with an explicit time of its own (the push
+		// dispatcher stamps them itself): recording order, time order and id
+		// order need not agree
+		w.attSeq++
+		a := queue.DeliveryAttempt{ID: fmt.Sprintf("att-%02d", (97-w.attSeq*37%100+100)%100), EventID: fmt.Sprintf("evt-%d", s.Batch%3), Route: s.Route, Target: s.Target,
+			Attempt: 1 + s.Batch%4, StatusCode: 500 + s.Batch%4, Outcome: queue.AttemptOutcomeRetry, CreatedAt: now.Add(s.D).UTC()}
+		for _, o := range w.attempts {
+			if o.ID == a.ID {
+				a.ID += fmt.Sprintf("-%d", w.attSeq)
+			}
+		}
+		err := w.Store.RecordAttempt(a)
+		w.sum("attempt %s event=%s route=%s at %s -> %s", a.ID, a.EventID, a.Route, off(a.CreatedAt), errShort(err))
+		if err != nil {
+			w.add([]Violation{viol("C06.attempt.record", "C06,C13", "RecordAttempt failed: %v", err)})
+			return
+		}
+		w.attempts = append(w.attempts, a)
+	case "list_attempts":
+		req := queue.AttemptListRequest{Route: s.Route, Target: s.Target, Limit: s.Batch}
+		if s.Reason != "" {
+			req.EventID = s.Reason
+		}
+		resp, err := w.Store.ListAttempts(req)
+		var want []queue.DeliveryAttempt
+		for _, a := range w.attempts {
+			if (req.Route == "" || a.Route == req.Route) && (req.Target == "" || a.Target == req.Target) && (req.EventID == "" || a.EventID == req.EventID) {
+				want = append(want, a)
+			}
+		}
+		sort.Slice(want, func(i, j int) bool {
+			if !want[i].CreatedAt.Equal(want[j].CreatedAt) {
+				return want[i].CreatedAt.After(want[j].CreatedAt)
+			}
+			return want[i].ID > want[j].ID
+		})
+		limit := req.Limit
+		if limit <= 0 {
+			limit = 100
+		}
+		if limit > 1000 {
+			limit = 1000
+		}
+		if len(want) > limit {
+			want = want[:limit]
+		}
+		var got, exp []string
+		for _, a := range resp.Items {
+			got = append(got, fmt.Sprintf("%s@%s/%d/%d", a.ID, off(a.CreatedAt), a.Attempt, a.StatusCode))
+		}
+		for _, a := range want {
+			exp = append(exp, fmt.Sprintf("%s@%s/%d/%d", a.ID, off(a.CreatedAt), a.Attempt, a.StatusCode))
+		}
+		w.sum("list_attempts route=%q target=%q event=%q limit=%d -> %v %s", req.Route, req.Target, req.EventID, req.Limit, got, errShort(err))
+		if err != nil || strings.Join(got, " ") != strings.Join(exp, " ") {
+			w.add([]Violation{viol("C13.attempts.list", "C13,C06", "ListAttempts(route=%q target=%q event=%q limit=%d) returned %v (err=%v), the newest first by (created_at, id) are %v", req.Route, req.Target, req.EventID, req.Limit, got, err, exp)})
 		}
 	case "stats":
 		st, err := w.Store.Stats()
